@@ -362,6 +362,12 @@ class C18(Prop):
                                 "normA": 1.0, "x": 1.0, "phase": phase, "dt_form": "py", "start": "generic", "sub_dim": 1,
                                 "eps_exp": 6, "v_real": False, "vnorm": 1.0, "k_distinct": 2, "rank": 1, "width_exp": 6,
                                 "rng": 1000 * n + block})
+        # regression pins for F18 (real start vector, complex Hermitian A; with and without buffer growth)
+        for n, block, phase, start in [(2, 50, "-t", "unit"), (6, 50, "+t", "generic"), (9, 3, "-t", "generic"), (25, 2, "-it", "unit"),
+                                       (40, 7, "+it", "generic"), (30, 50, "-t", "generic")]:
+            out.append({"kind": "krylov", "n": n, "block": block, "spectrum": "generic", "cplx": True, "normA": 1.0, "x": 2.0,
+                        "phase": phase, "dt_form": "cplx0", "start": start, "sub_dim": 1, "eps_exp": 6, "v_real": True, "vnorm": 1.0,
+                        "k_distinct": 2, "rank": 1, "width_exp": 6, "rng": 77 + n})
         return out
 
     # --------------------------------------------------------------------------------------------
